@@ -77,13 +77,13 @@ def d8_for_continue(s, log):
         if not re.search(r'\bcontinue\b', body):
             continue
         rng = out[m.end():k].strip()
-        mm = re.match(r'^\(?\s*(.+?)\s*\.\.\s*(.+?)\s*\)?$', rng)
-        if not mm:
+        # strip one pair of parentheses enclosing the whole range expression
+        if rng.startswith('(') and match_close(mask(rng), 0) == len(rng) - 1:
+            rng = rng[1:-1].strip()
+        mm = re.match(r'^(.+?)\s*\.\.\s*(.+)$', rng)
+        if not mm or '..=' in rng:
             raise AnchorLost('D8: unsupported range ' + rng)
-        a, b = mm.group(1), mm.group(2)
-        a = a.lstrip('(')
-        if b.endswith(')') and b.count('(') < b.count(')'):
-            b = b[:-1]
+        a, b = mm.group(1).strip(), mm.group(2).strip()
         v = m.group(1)
         head = 'let mut %s_ = %s; while %s_ < %s ' % (v, a, v, b)
         inner = '{ let %s = %s_; %s_ += 1;' % (v, v, v)
@@ -110,6 +110,11 @@ def d11_all_zero(s, log):
     return s
 
 
+def d14_leading_zeros(s, log):
+    """D14: u64::leading_zeros goes through a shim with an explicit contract (vstd's axiom is too weak)."""
+    return _sub(r'\.leading_zeros\(\)', '.leading_zeros_v()', s, log, 'D14')
+
+
 def d5_wrapping(s, log):
     """D5: core::num::Wrapping => local shim with verified operators."""
     return _sub(r'use core::num::Wrapping as w;', 'use crate::shims::Wrapping as w;', s, log, 'D5')
@@ -121,7 +126,7 @@ def d3_paths(s, log):
     return s
 
 
-STANDARD = [d1_attrs, d4_panic, d6_le_bytes, d7_map_range, d8_for_continue, d9_ref_and, d11_all_zero]
+STANDARD = [d1_attrs, d4_panic, d6_le_bytes, d7_map_range, d8_for_continue, d9_ref_and, d11_all_zero, d14_leading_zeros]
 
 
 def apply(s, log, rules=None):
